@@ -71,7 +71,7 @@ def run(ctx):
         R.run_records(ctx, "C04", 240, field=2)
     else:
         mystery_stream(ctx, 8)
-        R.run_records(ctx, "C04", 3000, exhaustive_n=4, field=12)
+        R.run_records(ctx, "C04", 1500, exhaustive_n=4, field=8)
 
 
 def replay(ctx, doc):
